@@ -884,6 +884,8 @@ impl FrozenDef {
         heap: Heap<'_>,
         frozen_heap: &FrozenHeap,
     ) {
+        #[cfg(feature = "verif_hooks")]
+        crate::verif_hooks::sched_point(crate::verif_hooks::Site::PostFreeze);
         // Module passed to this function is not always module where the function is declared:
         // A function can be created in a frozen module and frozen later in another module.
         // `def_module` variable contains a module where this `def` is declared.
